@@ -972,6 +972,22 @@ class C10(WMode):
     def checker(self, cfg):
         return C10Checker()
 
+    def final_events(self, rng, w, gs):
+        """Threshold runs (and a share of the others) end with a save, a restart from it and
+        two more workload events on every node, so that no shape leaves without a round trip."""
+        if "thr" not in w.cfg and rng.random() >= 0.3:
+            return []
+        evs = []
+        for i in range(len(w.nodes)):
+            evs.append({"op": "save", "node": i, "style": rng.randrange(3), "via": 0})
+            ev = {"op": "crash_restart", "node": i, "snap": -1, "loader": "class", "shared_load": rng.random() < 0.3}
+            if w.fam in CMS and rng.random() < 0.5:
+                ev["loader"] = "module"
+            evs.append(ev)
+            for _ in range(2):
+                evs.append(gen_workload(rng, w, w.cfg["mult"], node=i))
+        return evs
+
     def nontrivial(self, w):
         return w.probes["round_trips_checked"] + w.probes["restarts_checked"] > 0
 
